@@ -323,16 +323,21 @@ def requestFromHeaders (ext : List Nat → Bool) (urlOK : List Nat → Bool) (li
 
 /-! ### updateResponseFromHeaders -/
 
-/-- `strconv.Atoi` on a 64-bit platform: optional sign, one or more digits, value within int64 -/
-def atoi (s : List Nat) : Option Int :=
-  let (neg, d) := match s with
-    | 45 :: r => (true, r)
-    | 43 :: r => (false, r)
-    | r => (false, r)
+/-- sign and digits part of a decimal string -/
+def signSplit (s : List Nat) : Bool × List Nat :=
+  match s with
+  | 45 :: r => (true, r)
+  | 43 :: r => (false, r)
+  | r => (false, r)
+
+def atoiCore (neg : Bool) (d : List Nat) : Option Int :=
   if d.isEmpty || !d.all isDigit then none
   else
     let v : Int := (decVal d : Int)
     if neg then (if v ≤ 2 ^ 63 then some (-v) else none) else (if v < 2 ^ 63 then some v else none)
+
+/-- `strconv.Atoi` on a 64-bit platform: optional sign, one or more digits, value within int64 -/
+def atoi (s : List Nat) : Option Int := atoiCore (signSplit s).1 (signSplit s).2
 
 structure Resp where
   status : Int
